@@ -322,7 +322,18 @@ func CheckC12(r *Run) int {
 			}
 		}
 		var gapStr gosym.Str
-		switch mode := c.Choose("insertion", 0, 2); mode {
+		siteIdx := 0
+		for i := range wsSites {
+			if wsSites[i] == s {
+				siteIdx = i
+			}
+		}
+		mode := c.Choose("insertion", 0, 2)
+		if mode != 0 && siteIdx >= nPri+40 {
+			// symbolic comments: every gap of the hand-written seeds plus 40 sampled gaps in both tiers
+			return layOutcome{Kind: "same"}
+		}
+		switch mode {
 		case 0:
 			k := c.Choose("blanks", 1, 2)
 			var sy []gosym.Str
